@@ -20,7 +20,7 @@ EXHAUSTIVE = {"quick": True, "thorough": True}
 NSHARDS = {"quick": 4, "thorough": 8}
 THRESHOLDS = {"quick": {"c14:positions": 4096, "c14:ids": 4096, "c14:unknown-id": 10, "c14:unknown-id-forms": 60, "c14:unknown-token": 20,
                         "c14:random-seq": 500, "c14:legacy-vocab": 450, "c14:legacy-vocab:descending": 150, "c14:legacy-vocab:random": 150, "c14:prefix-pairs": 1225, "c14:legacy-unknown": 100,
-                        "c14:legacy-codec": 450, "c14:cf-perm": 50}}
+                        "c14:legacy-codec": 450, "c14:legacy-rejudged-after-views": 450, "c14:cf-perm": 50}}
 THRESHOLDS["thorough"] = dict(THRESHOLDS["quick"])
 ANCHORS = ["maze_dataset.utils:corner_first_ndindex",
            "maze_dataset.tokenization.maze_tokenizer:MazeTokenizer._token_arr",
@@ -176,6 +176,23 @@ def run(ctx):
             ctx.check(lt.decode(ids) == toks and lt.encode(toks) == ids and lt.encode(" ".join(toks)) == ids
                       and lt.decode(ids, joined_tokens=True) == " ".join(toks), "C14/legacy-codec-not-inverse", "", case)
             ctx.check(lt.encode(lt.decode(list(range(len(arr))))) == list(range(len(arr))), "C14/legacy-codec-not-inverse-all", "", case)
+            # reading any of the tokenizer's public (cached) views may not disturb the vocabulary: read them all, then judge again
+            for attr in ("name", "node_strings_map", "vocab_size", "n_tokens", "padding_token_index", "coordinate_tokens_coords",
+                         "coordinate_tokens_ids", "is_AOTP", "is_UT", "token_arr", "tokenizer_map", "summary"):
+                try:
+                    v = getattr(lt, attr)
+                    if callable(v):
+                        v()
+                except Exception:  # noqa: BLE001  (CTT mode documents that the coordinate helpers are not available)
+                    ctx.tally("c14:legacy-view-unavailable(not judged)")
+            ctx.tally("c14:legacy-rejudged-after-views")
+            arr2, mp2 = list(lt.token_arr), lt.tokenizer_map
+            ctx.check(arr2 == arr and len(mp2) == len(arr) and all(mp2.get(t) == i for i, t in enumerate(arr)), "C14/legacy-map-not-inverse-after-reading-views",
+                      lambda: f"token list {len(arr2)} entries, map {len(mp2)} entries; missing {[t for t in arr if t not in mp2][:4]}", case)
+            try:
+                ctx.check(lt.encode(arr[:11]) == list(range(11)) and lt.decode(list(range(11))) == arr[:11], "C14/legacy-codec-not-inverse-after-reading-views", "", case)
+            except Exception as e:  # noqa: BLE001
+                ctx.violation(f"C14/legacy-codec-raises-after-reading-views/{type(e).__name__}", repr(e)[:300], case)
             # every in-grid coordinate token is known and maps to its position
             if mode != TokenizationMode.AOTP_CTT_indexed:
                 want = [f"({r},{c})" for r in range(n) for c in range(n)]
